@@ -294,6 +294,29 @@ fn gen_start(ch: &[u16]) -> (Tm, Option<usize>) {
         // the rules that make S symmetric and the non-linear ones are added by the caller (planted = usize::MAX)
         return (t, Some(usize::MAX));
     }
+    // one case in eight: a let whose body uses one multi-slot class twice with different arguments, both containing the bound
+    // variable, and whose replacement term shares a variable with one of them (substitution must not confuse the two uses)
+    if src.pick(8) == 0 {
+        let v = |n: Name| Tm::node("var", vec![Arg::S(n)]);
+        let bin = |op: &str, a: Tm, b: Tm| Tm::node(op, vec![Arg::K(vec![], a), Arg::K(vec![], b)]);
+        let x: Name = 21;
+        let k = src.pick(3);
+        let s = |a: Name| match k {
+            0 => bin("mul", v(x), v(a)),
+            1 => bin("add", bin("mul", v(x), v(a)), v(x)),
+            _ => bin("mul", bin("add", v(x), v(a)), v(a)),
+        };
+        let (a, b) = (src.pick(3) as Name, src.pick(3) as Name);
+        let body = bin(["add", "mul"][src.pick(2)], s(a), s(b));
+        let t = match src.pick(3) {
+            0 => v(a),
+            1 => bin("add", v(b), Tm { op: String::new(), args: vec![Arg::P("1".into())] }),
+            _ => bin("mul", v(a), v(b)),
+        };
+        let start = Tm::node("let", vec![Arg::K(vec![x], body), Arg::K(vec![], t)]);
+        let ri = pool.iter().position(|r| r.name == "let-subst").unwrap();
+        return (start, Some(ri));
+    }
     // half of the time: a context around an instance of some rule's left side (so that rules fire)
     if src.pick(4) == 0 {
         return (cap_fv(&gen_tm(&sig, &cfg, &mut src, 0), 3), None);
@@ -319,7 +342,18 @@ fn gen_start(ch: &[u16]) -> (Tm, Option<usize>) {
         sigma.insert(v.clone(), t);
     }
     let mut fresh: Name = 120;
-    let inst = instantiate(&lhs, &sigma, &BTreeMap::new(), "var", &mut fresh).unwrap();
+    let mut inst = instantiate(&lhs, &sigma, &BTreeMap::new(), "var", &mut fresh).unwrap();
+    // one planted instance in five is a near miss: one occurrence of a variable that the left side binds is replaced by a free
+    // variable (which usually occurs elsewhere in the instance too); the rule must not treat the free slot as the bound one
+    if src.pick(5) == 0 {
+        let bound: std::collections::BTreeSet<Name> = crate::pat::pat_bound_slots(&inst).into_iter().collect();
+        let n = inst.size();
+        let pos: Vec<usize> = (0..n).filter(|i| { let s = nth_subterm(&inst, *i); s.op == "var" && matches!(s.args.first(), Some(Arg::S(x)) if bound.contains(x)) }).collect();
+        if !pos.is_empty() {
+            let i = pos[src.pick(pos.len())];
+            inst = replace_nth(&inst, i, &Tm::node("var", vec![Arg::S(src.pick(3) as Name)]));
+        }
+    }
     // context
     let ctx = match src.pick(4) {
         0 => inst,
@@ -333,7 +367,7 @@ fn gen_start(ch: &[u16]) -> (Tm, Option<usize>) {
 fn strategy(max_iters: u8) -> BoxedStrategy<RwCase> {
     (
         proptest::collection::vec(any::<u16>(), 0..80),
-        proptest::collection::vec(0usize..34, 1..8),
+        proptest::collection::vec(0usize..crate::fprules::fp_rules().len(), 1..8),
         1u8..=max_iters,
         any::<bool>(),
         any::<bool>(),
@@ -375,7 +409,7 @@ pub fn property(tier: Tier) -> Property {
                                 if c.use_runner { "Runner" } else { "apply_rewrites" }.to_string() + if c.rule_slot_variant > 0 { " rule slots named like existing class slots" } else { "" }
             )
         },
-        rule: "start term over the F_5 language (summation over the index set {0,1}) (half of them a context around an instance of a rule's left side; one in six a symmetric four-name term used twice with permuted names under add/mul/neg, rewritten with commutativity and the non-linear rules), a subset of 1-7 of the 32 model-valid rules (conditions assembled from the library's slot_free_in / and / or / not) (assoc/comm/distrib, units, sum linearity both ways, scaling into and out of the binder, sum shift, let rules, b[x:=t] right sides), 1-4/5 iterations under apply_rewrites or Runner (node limit 1500), both substitution methods; every e-node of every class evaluated in 8 random environments against the class's Bellman-Ford-cheapest e-node, redundant slots given fresh random values, root against direct evaluation of the start term; non-trivial = rewriting changed the e-graph, a binder rule was in the set, the start term has a binder and some class has >= 3 e-nodes; distinct by rendered case",
+        rule: "start term over the F_5 language (summation over the index set {0,1}) (half of them a context around an instance of a rule's left side; one in six a symmetric four-name term used twice with permuted names under add/mul/neg, rewritten with commutativity and the non-linear rules), a subset of 1-7 of the 37 model-valid rules (incl. chained substitutions and a left side with two binders that uses the inner bound slot explicitly; one planted instance in five is a near miss in which a bound variable occurrence is replaced by a free variable) (conditions assembled from the library's slot_free_in / and / or / not) (assoc/comm/distrib, units, sum linearity both ways, scaling into and out of the binder, sum shift, let rules, b[x:=t] right sides), 1-4/5 iterations under apply_rewrites or Runner (node limit 1500), both substitution methods; every e-node of every class evaluated in 8 random environments against the class's Bellman-Ford-cheapest e-node, redundant slots given fresh random values, root against direct evaluation of the start term; non-trivial = rewriting changed the e-graph, a binder rule was in the set, the start term has a binder and some class has >= 3 e-nodes; distinct by rendered case",
         case_timeout_s: tier.pick(30, 120),
         exhaustive: false,
     })];
